@@ -147,6 +147,13 @@ def rule_first(ctx):
                 it = Interp(repo, cell, domains, hooks=hooks)
                 it.layer_base = runner.base
                 layer = runner.make_layer(it, c)
+                if entity_based and "entity_callbacks" in layer[1].fields:
+                    # an application that subscribed to every kind of entity (@ProtocolEntityCallback("iq") ...): its handler
+                    # must not see - and must not pre-empt - a reply the registry consumes
+                    lam = ast.parse("lambda entity: __app__(entity)", mode="eval").body
+                    appcb = ("closure", lam, {"@module": c.module, "@owner": None}, None, None)
+                    layer[1].fields["entity_callbacks"] = ("dict", {t: appcb for t in ("iq", "message", "receipt", "notification")})
+                    it.hooks["builtin:__app__"] = lambda itp, e, a, k, env, d: (itp.emit("UP", ("ext", "application callback", [])), C_NONE)[1]
                 if entity_based:
                     o = Obj(iqcls)
                     o.fields.update({"tag": ("c", tag), "_id": ("c", "r1"), "_type": ("c", "result"), "xmlns": C_NONE, "to": C_NONE, "_from": C_NONE})
